@@ -64,7 +64,12 @@ class Start(SimpleCommand):
 
         path = Path(relative_path.replace(".", "/") + script_extension)
         new_file = stack_wf.joinpath(path)
-        if not new_file.exists() or not new_file.is_file():
+        try:
+            is_file = new_file.exists() and new_file.is_file()
+        except OSError:
+            # e.g. a name longer than the file system allows: no such file
+            is_file = False
+        if not is_file:
             raise InvalidArgumentsError(
                 self.stack, "The path must point to a file, and it must exist."
             )
